@@ -1,7 +1,79 @@
 (* PropC09.v — C09: frame payload damage costs only the entry it hits (stream level: the record reader over the blocks the writer produced, any block size, any checksum function; 'damaged' = checksum and/or payload bytes of a frame replaced so that the CRC check fails, length and type intact).
    Statements only; each theorem is closed by `exact <lemma>`; proofs live in the imported files. *)
 From Coq Require Import Lia NArith List.
-From MRL Require Import Bytes Params Names Frame Record Mem Rolling Log Driver StreamProofs DamageProofs ReplaySpec DeletionSim GhostLog OpenReplay DamageFile.
+From MRL Require Import Bytes Params Names Frame Record Mem Rolling Log Driver StreamProofs DamageProofs ReplaySpec DeletionSim GhostLog OpenReplay DamageFile RestartInv RestartFinal DamageAtomic.
+
+(* THE PROPERTY, end to end: from any state satisfying the global invariant (any history with restarts), after a clean drop, with the checksum/payload bytes of one frame of entry X damaged so that its CRC fails: open succeeds and every retained record that was not appended by X is still there, same position, same payload *)
+Theorem C09_damage_costs_one_entry :
+    forall P : params,
+    7 < BS P ->
+    BS P <= 65542 ->
+    1 <= NB P ->
+    (forall (t : byte) (p : bytes), crcf P t p < 2 ^ 32) ->
+    L_GC P = false ->
+    L_IO P = false ->
+    forall (st : state) (G : ghost) (i : nat) (X : entry) (ex0 ed : bytes) (k : nat) (fs_d : fsT),
+    Inv P st G ->
+    damaged_dir P st G i X ex0 ed k fs_d ->
+    dmg_bound P st G ->
+    forall (pol : policy) (hint : list bytes),
+    exists st_r : state,
+    open P fs_d None pol hint = OpenOk st_r /\
+    SpecRefine.qs_inv (s_qs st_r) /\
+    (forall (q : bytes) (m : mq) (pos : N) (payload : bytes),
+    qs_get (s_qs st) q = Some m ->
+    In (pos, payload) (records_of (q_buf m) (q_metas m)) ->
+    ~ appended_by X q (pos, payload) ->
+    exists m' : mq,
+    qs_get (s_qs st_r) q = Some m' /\ In (pos, payload) (records_of (q_buf m') (q_metas m'))).
+Proof. exact C09_damage_costs_one_entry. Qed.
+Print Assumptions C09_damage_costs_one_entry.
+
+(* the same from a fresh directory after any hist_ok history *)
+Theorem C09_from_fresh :
+    forall P : params,
+    7 < BS P ->
+    BS P <= 65542 ->
+    1 <= NB P ->
+    (forall (t : byte) (p : bytes), crcf P t p < 2 ^ 32) ->
+    L_GC P = false ->
+    L_IO P = false ->
+    forall (pol0 : policy) (st0 : state) (h : list hop) (st : state) (outs : list outcome),
+    open P [] None pol0 [] = OpenOk st0 ->
+    hrun P st0 h = Some (st, outs) ->
+    hist_ok P st0 h ->
+    exists G : ghost,
+    Inv P st G /\
+    gh_base G = 0 /\
+    (forall (i : nat) (X : entry) (ex0 ed : bytes) (k : nat) (fs_d : fsT),
+    damaged_dir P st G i X ex0 ed k fs_d ->
+    dmg_bound P st G ->
+    forall (pol : policy) (hint : list bytes),
+    exists st_r : state,
+    open P fs_d None pol hint = OpenOk st_r /\
+    SpecRefine.qs_inv (s_qs st_r) /\
+    (forall (q : bytes) (m : mq) (pos : N) (payload : bytes),
+    qs_get (s_qs st) q = Some m ->
+    In (pos, payload) (records_of (q_buf m) (q_metas m)) ->
+    ~ appended_by X q (pos, payload) ->
+    exists m' : mq,
+    qs_get (s_qs st_r) q = Some m' /\ In (pos, payload) (records_of (q_buf m') (q_metas m')))).
+Proof. exact C09_from_fresh. Qed.
+Print Assumptions C09_from_fresh.
+
+(* non-vacuity: for every entry in the kept files such a damaged directory exists *)
+Theorem C09_damaged_dir_exists :
+    forall P : params,
+    7 < BS P ->
+    BS P <= 65542 ->
+    1 <= NB P ->
+    (forall (t : byte) (p : bytes), crcf P t p < 2 ^ 32) ->
+    forall (st : state) (G : ghost) (i : nat) (X : entry) (fX : N),
+    Inv P st G ->
+    nth_error (gh_E G) i = Some (fX, X) ->
+    exists (ex0 ed : bytes) (k : nat) (fs_d : fsT), damaged_dir P st G i X ex0 ed k fs_d.
+Proof. exact damaged_dir_exists. Qed.
+Print Assumptions C09_damaged_dir_exists.
 
 (* one frame: a CRC failure leaves the reader exactly where the intact frame would have left it, without flagging the block *)
 Theorem C09_bad_crc_frame :
